@@ -100,7 +100,7 @@ func Finish(sp *Spec, outs []Outcome, t0 time.Time, loadS float64) int {
 	var machinery []string
 	var violations []string
 	nObl, nDis, nInc, nQueries, nReach, nUnreach := 0, 0, 0, 0, 0, 0
-	nStretched := 0
+	nStretched, nSecond := 0, 0
 	solverS := 0.0
 	funcs := map[string]bool{}
 	natives := map[string]bool{}
@@ -121,6 +121,7 @@ func Finish(sp *Spec, outs []Outcome, t0 time.Time, loadS float64) int {
 		}
 		nQueries += o.Queries
 		nStretched += o.Stretched
+		nSecond += o.Second
 		solverS += o.SolverS
 		if o.Abstracted {
 			abstracted++
@@ -276,6 +277,7 @@ func Finish(sp *Spec, outs []Outcome, t0 time.Time, loadS float64) int {
 		"queries":                      nQueries,
 		"timeouts_are_cpu_time":        "per-query timeouts and per-configuration budgets are budgets of CPU time (solver process, interpreter thread); a query that hits its wall-clock timeout with less CPU than its budget is asked again with a stretched timeout",
 		"queries_asked_again_starved":  nStretched,
+		"obligations_handed_to_z3_5_1": nSecond,
 		"solver_s":                     round3(solverS),
 		"load_s":                       round3(loadS),
 		"vacuity_witnesses":            nReach,
@@ -285,7 +287,7 @@ func Finish(sp *Spec, outs []Outcome, t0 time.Time, loadS float64) int {
 		"rule":                         sp.Rule,
 		"samples":                      samples,
 		"checker_cmd":                  "z3 -in (4.8.12), one process per worker, check-sat-assuming per obligation",
-		"trusted_base":                 []string{"z3 4.8.12", "golang.org/x/tools/go/ssa v0.29.0", "/verif/smt", "/verif/symgo (own symbolic executor)", "Go type checker"},
+		"trusted_base":                 []string{"z3 4.8.12", "z3 5.1.0 (z3-new; asked only when 4.8.12 answers unknown within its budget)", "golang.org/x/tools/go/ssa v0.29.0", "/verif/smt", "/verif/symgo (own symbolic executor)", "Go type checker"},
 		"uf_abstracted_configurations": abstracted,
 		"opaque_format_strings":        opaque,
 		"known_findings_seen":          knownSeen,
